@@ -92,88 +92,30 @@ def lean_pairs(ps):
     return "[" + ", ".join(f"({a}, {b})" for a, b in ps) + "]"
 
 
-# ----------------------------------------------------------------------------- Gen.Abc
-
-def extract_abc():
-    src = strip_comments(read("lightmotif/src/abc.rs"))
-    out = ["-- GENERATED by tools/extract.py from lightmotif/src/abc.rs — do not edit.",
-           "namespace LMV.Gen.Abc", ""]
-    for alpha, sym, pfx in (("Dna", "Nucleotide", "dna"), ("Protein", "AminoAcid", "protein")):
-        imp = block_after(src, rf"impl\s+Alphabet\s+for\s+{alpha}\s*\{{", f"impl Alphabet for {alpha}")
-        mk = re.search(r"type\s+K\s*=\s*U(\d+)\s*;", imp)
-        ms = re.search(r"type\s+Symbol\s*=\s*(\w+)\s*;", imp)
-        if not mk or not ms or ms.group(1) != sym:
-            raise ExtractError(f"{alpha}: type K / type Symbol")
-        K = int(mk.group(1))
-        symbols_body = block_after(imp, r"fn\s+symbols\s*\(\s*\)[^{]*\{", f"{alpha}::symbols")
-        sym_names = re.findall(rf"{sym}::(\w+)", symbols_body)
-        as_str_body = block_after(imp, r"fn\s+as_str\s*\(\s*\)[^{]*\{", f"{alpha}::as_str")
-        mstr = re.search(r'"([^"]*)"', as_str_body)
-        if not mstr:
-            raise ExtractError(f"{alpha}::as_str literal")
-        letters = [ord(ch) for ch in mstr.group(1)]
-        # enum with discriminants and #[default]
-        en = block_after(src, rf"pub\s+enum\s+{sym}\s*\{{", f"enum {sym}")
-        disc = {}
-        default = None
-        pending_default = False
-        for tok in re.finditer(r"(#\[default\])|(\w+)\s*=\s*(\d+)\s*,", en):
-            if tok.group(1):
-                pending_default = True
-            else:
-                disc[tok.group(2)] = int(tok.group(3))
-                if pending_default:
-                    default = int(tok.group(3))
-                    pending_default = False
-        if default is None or not disc:
-            raise ExtractError(f"enum {sym}: discriminants / #[default]")
-        simp = block_after(src, rf"impl\s+Symbol\s+for\s+{sym}\s*\{{", f"impl Symbol for {sym}")
-        as_ascii = block_after(simp, r"fn\s+as_ascii\s*\([^)]*\)[^{]*\{", f"{sym}::as_ascii")
-        as_pairs = [(disc[a], byte_lit(b)) for a, b in re.findall(rf"{sym}::(\w+)\s*=>\s*(b'[^']*')", as_ascii)]
-        from_ascii = block_after(simp, r"fn\s+from_ascii\s*\([^)]*\)[^{]*\{", f"{sym}::from_ascii")
-        from_pairs = [(byte_lit(b), disc[a]) for b, a in re.findall(rf"(b'[^']*')\s*=>\s*Ok\(\s*{sym}::(\w+)\s*\)", from_ascii)]
-        if not re.search(r"_\s*=>\s*Err\(", from_ascii):
-            raise ExtractError(f"{sym}::from_ascii: no catch-all Err arm")
-        # anything else in the match (ranges, guards, or-patterns) is unsupported -> broken tie
-        arms = re.findall(r"([^,{}]+?)=>", block_after(from_ascii, r"match\s+c\s*\{", f"{sym}::from_ascii match"))
-        for a in arms:
-            a = a.strip()
-            if a != "_" and not re.fullmatch(r"b'[^']*'", a):
-                raise ExtractError(f"{sym}::from_ascii: unsupported arm pattern `{a}`")
-        as_index = block_after(simp, r"fn\s+as_index\s*\([^)]*\)[^{]*\{", f"{sym}::as_index")
-        if re.sub(r"\s+", "", as_index) != "*selfasusize":
-            raise ExtractError(f"{sym}::as_index is not `*self as usize`")
-        out.append(f"def {pfx}K : Nat := {K}")
-        out.append(f"def {pfx}Letters : List UInt8 := {lean_list(letters)}")
-        out.append(f"def {pfx}Symbols : List Nat := {lean_list([disc[s] for s in sym_names])}")
-        out.append(f"def {pfx}Default : Nat := {default}")
-        out.append(f"def {pfx}FromAscii : List (UInt8 × Nat) := {lean_pairs(from_pairs)}")
-        out.append(f"def {pfx}AsAscii : List (Nat × UInt8) := {lean_pairs(as_pairs)}")
-        cimp = re.search(rf"impl\s+ComplementableSymbol\s+for\s+{sym}\s*\{{", src)
-        if cimp:
-            cb = block_after(src, rf"impl\s+ComplementableSymbol\s+for\s+{sym}\s*\{{", f"complement {sym}")
-            cp = [(disc[a], disc[b]) for a, b in re.findall(rf"{sym}::(\w+)\s*=>\s*{sym}::(\w+)", cb)]
-            out.append(f"def {pfx}Complement : List (Nat × Nat) := {lean_pairs(cp)}")
-        elif pfx == "dna":
-            raise ExtractError("impl ComplementableSymbol for Nucleotide")
-        out.append("")
-    out.append("end LMV.Gen.Abc")
-    return "\n".join(out) + "\n"
-
-
-GENERATORS = {"Abc": extract_abc}
+def load_generators():
+    """every tools/gen/*.py exposing NAME and generate()"""
+    import importlib.util
+    gens = {}
+    gdir = os.path.join(os.path.dirname(os.path.abspath(__file__)), "gen")
+    for fn in sorted(os.listdir(gdir)):
+        if fn.endswith(".py") and not fn.startswith("_"):
+            spec = importlib.util.spec_from_file_location("gen_" + fn[:-3], os.path.join(gdir, fn))
+            mod = importlib.util.module_from_spec(spec)
+            spec.loader.exec_module(mod)
+            gens[mod.NAME] = mod.generate
+    return gens
 
 
 def main():
     os.makedirs(OUT, exist_ok=True)
     status = {"ok": True, "modules": {}, "errors": []}
-    for name, fn in GENERATORS.items():
+    for name, fn in load_generators().items():
         path = os.path.join(OUT, name + ".lean")
         try:
             text = fn()
-        except ExtractError as e:
+        except Exception as e:  # ExtractError or any crash of a generator: a broken tie, never skipped
             status["ok"] = False
-            status["errors"].append(f"Gen.{name}: {e}")
+            status["errors"].append(f"Gen.{name}: {type(e).__name__}: {e}")
             continue
         old = open(path).read() if os.path.exists(path) else None
         if old != text:
@@ -186,4 +128,6 @@ def main():
 
 
 if __name__ == "__main__":
+    sys.path.insert(0, os.path.dirname(os.path.abspath(__file__)))
+    import extract  # noqa: F401  (so that generators importing `extract` see this module)
     main()
